@@ -389,7 +389,9 @@ func ruleC09(c *Ctx) {
 			nRet++
 			tree, path := backSlice(r.Results[0]), backSlice(r.Results[1])
 			fromWS := sliceHasCall(tree, func(cal *ssa.Function, _ *ssa.Call) bool { return calleeNameIs(cal, "workspace.Workspace).GetResolved") })
-			fromDoc := sliceHasCall(tree, func(cal *ssa.Function, _ *ssa.Call) bool { return calleeNameIs(cal, "server.Server).GetResolved") })
+			fromDoc := sliceHasCall(tree, func(cal *ssa.Function, _ *ssa.Call) bool {
+				return calleeNameIs(cal, "server.Server).GetResolved") || calleeNameIs(cal, "include.Loader).LoadFromContent")
+			})
 			pathRoot := sliceHasCall(path, func(cal *ssa.Function, _ *ssa.Call) bool { return calleeNameIs(cal, "workspace.Workspace).RootJournalPath") })
 			pathDoc := sliceHasCall(path, func(cal *ssa.Function, _ *ssa.Call) bool { return calleeNameIs(cal, "server.uriToPath") })
 			okPair := (fromWS && !fromDoc && pathRoot) || (fromDoc && !fromWS && pathDoc && !pathRoot) || (!fromWS && !fromDoc)
